@@ -671,62 +671,128 @@ func runMark(r *core.Run) {
 		r.Check(bad == "", fnLabel(fn)+" marks the parameter scope exactly once", pos, "", bad+": uses in parameter default values are not separated from same-named declarations in the body (`function f(a=b){var b}` merges the two b)")
 	}
 	// (b) for statements: between entering the loop scope and leaving it, MarkForStmt runs exactly once
-	fn := r.Prog.SSAFunc("js", "Parser", "parseStmt")
-	if fn == nil {
-		r.BrokenAnchor("js.Parser.parseStmt")
-		return
-	}
-	var enters []*ssa.Call
-	for _, b := range fn.Blocks {
-		for _, in := range b.Instrs {
+	// (directly, or inside a helper that the loop arm calls)
+	memo := map[*ssa.Function]int{}
+	var marksIn func(f *ssa.Function, depth int) int // MarkForStmt calls on every non-error path: n >= 0, or -1 if it varies
+	marksIn = func(f *ssa.Function, depth int) int {
+		if v, ok := memo[f]; ok {
+			return v
+		}
+		if f == nil || len(f.Blocks) == 0 || depth > 3 {
+			return 0
+		}
+		memo[f] = 0
+		res, set := 0, false
+		// only marks applied to the scope that is current when f is entered count: v[1] tracks f's own scope nesting
+		pathFlow(f, pstate{}, func(s pstate, in ssa.Instruction) pstate {
 			if c, ok := in.(*ssa.Call); ok {
-				if f := c.Call.StaticCallee(); f != nil && recvName(f) == "Parser" && f.Name() == "enterScope" {
-					enters = append(enters, c)
+				if g := c.Call.StaticCallee(); g != nil && recvName(g) == "Parser" {
+					switch g.Name() {
+					case "enterScope":
+						s.v[1] = clamp(s.v[1] + 1)
+						return s
+					case "exitScope":
+						s.v[1] = clamp(s.v[1] - 1)
+						return s
+					}
 				}
 			}
-		}
-	}
-	loops := 0
-	for _, e := range enters {
-		// is this the loop scope? some MarkForStmt call is dominated by it
-		isLoop := false
-		for _, b := range fn.Blocks {
-			for _, in := range b.Instrs {
-				if isScopeCall(in, "MarkForStmt") && (e.Block() == b || e.Block().Dominates(b)) {
-					isLoop = true
-				}
-			}
-		}
-		if !isLoop {
-			continue
-		}
-		loops++
-		bad := ""
-		var badPos token.Pos
-		pathFlow(fn, pstate{}, func(s pstate, in ssa.Instruction) pstate {
-			if in == ssa.Instruction(e) {
-				s.v[0], s.v[1] = 1, 0
+			if s.v[1] != 0 {
 				return s
 			}
-			if s.v[0] == 1 && isScopeCall(in, "MarkForStmt") {
-				s.v[1] = clamp(s.v[1] + 1)
-			}
-			if c, ok := in.(*ssa.Call); ok && s.v[0] == 1 {
-				if f := c.Call.StaticCallee(); f != nil && recvName(f) == "Parser" && f.Name() == "exitScope" && c.Call.Args[1] == ssa.Value(e) {
-					if !s.err && s.v[1] != 1 && bad == "" {
-						bad = fmt.Sprintf("a non-error path leaves the loop scope at %s after %d calls of MarkForStmt", r.Prog.Position(c.Pos()), s.v[1])
-						badPos = c.Pos()
+			if isScopeCall(in, "MarkForStmt") {
+				s.v[0] = clamp(s.v[0] + 1)
+			} else if c, ok := in.(*ssa.Call); ok {
+				if g := c.Call.StaticCallee(); g != nil && recvName(g) == "Parser" && g != f {
+					if k := marksIn(g, depth+1); k > 0 {
+						s.v[0] = clamp(s.v[0] + int8(k))
+					} else if k < 0 {
+						s.v[0] = 3
 					}
-					s.v[0] = 0
 				}
 			}
 			return s
-		}, func(s pstate, ret *ssa.Return) {})
-		pos := e.Pos()
-		if bad != "" {
-			pos = badPos
-		}
-		r.Check(bad == "", "parseStmt marks each for-loop head exactly once", pos, "", bad+": declarations and uses of the loop head are not separated from the body's")
+		}, func(s pstate, ret *ssa.Return) {
+			if s.err {
+				return
+			}
+			if !set {
+				res, set = int(s.v[0]), true
+			} else if res != int(s.v[0]) {
+				res = -1
+			}
+		})
+		memo[f] = res
+		return res
 	}
-	r.Check(loops == 1, "for-statement scope found", fn.Pos(), "", fmt.Sprintf("%d loop scopes with MarkForStmt found in parseStmt", loops))
+	loops := 0
+	for _, fn := range parserFuncs(r) {
+		var enters []*ssa.Call
+		for _, b := range fn.Blocks {
+			for _, in := range b.Instrs {
+				if c, ok := in.(*ssa.Call); ok {
+					if f := c.Call.StaticCallee(); f != nil && recvName(f) == "Parser" && f.Name() == "enterScope" {
+						enters = append(enters, c)
+					}
+				}
+			}
+		}
+		marksAt := func(in ssa.Instruction) int {
+			if isScopeCall(in, "MarkForStmt") {
+				return 1
+			}
+			if c, ok := in.(*ssa.Call); ok {
+				if g := c.Call.StaticCallee(); g != nil && recvName(g) == "Parser" && g != fn {
+					return marksIn(g, 0)
+				}
+			}
+			return 0
+		}
+		for _, e := range enters {
+			// is this the loop scope? some MarkForStmt (direct or through a helper) is dominated by it
+			isLoop := false
+			for _, b := range fn.Blocks {
+				for _, in := range b.Instrs {
+					if marksAt(in) != 0 && (e.Block() == b && instrIndex(e) < instrIndex(in) || e.Block() != b && e.Block().Dominates(b)) {
+						isLoop = true
+					}
+				}
+			}
+			if !isLoop {
+				continue
+			}
+			loops++
+			bad := ""
+			var badPos token.Pos
+			pathFlow(fn, pstate{}, func(s pstate, in ssa.Instruction) pstate {
+				if in == ssa.Instruction(e) {
+					s.v[0], s.v[1] = 1, 0
+					return s
+				}
+				if s.v[0] == 1 {
+					if k := marksAt(in); k > 0 {
+						s.v[1] = clamp(s.v[1] + int8(k))
+					} else if k < 0 {
+						s.v[1] = 3
+					}
+				}
+				if c, ok := in.(*ssa.Call); ok && s.v[0] == 1 {
+					if f := c.Call.StaticCallee(); f != nil && recvName(f) == "Parser" && f.Name() == "exitScope" && c.Call.Args[1] == ssa.Value(e) {
+						if !s.err && s.v[1] != 1 && bad == "" {
+							bad = fmt.Sprintf("a non-error path leaves the loop scope at %s after %d calls of MarkForStmt", r.Prog.Position(c.Pos()), s.v[1])
+							badPos = c.Pos()
+						}
+						s.v[0] = 0
+					}
+				}
+				return s
+			}, func(s pstate, ret *ssa.Return) {})
+			pos := e.Pos()
+			if bad != "" {
+				pos = badPos
+			}
+			r.Check(bad == "", "each for-loop head is marked exactly once", pos, "", bad+": declarations and uses of the loop head are not separated from the body's")
+		}
+	}
+	r.Check(loops == 1, "for-statement scope found", token.NoPos, "", fmt.Sprintf("%d loop scopes with MarkForStmt found in the parser", loops))
 }
